@@ -99,6 +99,8 @@ def cexpr(n, env):
     ty, tm = cexpr(n.value, env)
     if ty == 'V':
       return ('V', tm)          # a (1, n) row and its (n, 1) transpose hold the same numbers in the same order
+    if ty == 'M':
+      return ('MT', tm)         # the transpose of a 2-D array: kept as the untransposed rows
     raise Untranslatable(n, ".T on type " + ty)
   if isinstance(n, ast.IfExp):
     # 1. if gamma is np.inf else gamma / (gamma + 1.)   (`==` as well: the value, not the object)
@@ -140,6 +142,8 @@ def cexpr(n, env):
       lt, l = as_scalar(lt, l)
     if rt == 'N' and lt != 'N':
       rt, r = as_scalar(rt, r)
+    if isinstance(n.op, ast.Mult) and lt == 'MT' and rt == 'V':
+      return ('MT', "(nn_scale_rows %s %s)" % (r, l))      # X.T * y scales column i of X.T, i.e. row i of X, by y_i
     key = (type(n.op), lt, rt)
     if key in BIN:
       ty, fmt = BIN[key]
@@ -257,6 +261,8 @@ def cexpr(n, env):
 
 def cdot(n, a, b, env):
   (at, atm), (bt, btm) = cexpr(a, env), cexpr(b, env)
+  if (at, bt) == ('MT', 'M'):
+    return ('M', "(nn_dot_tm %s %s)" % (atm, btm))          # A.T.dot(B)
   g = {('V', 'V'): ('S', 'nn_dot_vv'), ('M', 'V'): ('V', 'nn_dot_mv'),
        ('V', 'M'): ('V', 'nn_dot_vm'), ('M', 'M'): ('M', 'nn_dot_mm')}.get((at, bt))
   if g is None:
